@@ -375,15 +375,18 @@ static bool viewPresencesEmpty(const QXmppRosterManagerPrivate *d)
 // ------------------------------------------------------------------------------------------------ (3) session start / end
 // connected: arbitrary earlier view (roster + presences + received flag), arbitrary stream-management outcome,
 // then the answer to the roster request (a full roster with 2 items, or an error)
-static void connected(bool withResult, bool resultIsError)
+// For the variants that go on to the answer, the decision "request sent" must be taken on a concrete path (otherwise the
+// promise object is uninitialised on a merged path and every later dereference becomes a case split): smFixed/recvFixed.
+static void connected(bool withResult, bool resultIsError, int smFixed = -1, int recvFixed = -1)
 {
     symOwnJid();
     Mgr m; RefRoster ref; RefPresence rp;
     symRoster(m.d, ref);
     symPresences(m.d, rp, 1);
+    if (recvFixed >= 0) m.d->isRosterReceived = (recvFixed != 0);
     const bool recv0 = m.d->isRosterReceived;
-    g_smState = vp_u8(); vp_assume(g_smState <= 2);
-    g_auth = vp_bool();
+    if (smFixed >= 0) { g_smState = smFixed; g_auth = true; }
+    else { g_smState = vp_u8(); vp_assume(g_smState <= 2); g_auth = vp_bool(); }
     const bool resumed = (g_smState == QXmppClient::ResumedStream);
     const QString pb = vpSymString(2), pr = vpSymString(2);
     const bool hadPresence = refHasPresence(rp, pb, pr);
@@ -425,8 +428,9 @@ static void connected(bool withResult, bool resultIsError)
     checkRoster(m.d, ref);
 }
 extern "C" void h_connected() { connected(false, false); }
-extern "C" void h_connected_result() { connected(true, false); }
-extern "C" void h_connected_error() { connected(true, true); }
+extern "C" void h_connected_result_new() { connected(true, false, QXmppClient::NewStream); }
+extern "C" void h_connected_result_resumed() { connected(true, false, QXmppClient::ResumedStream, 0); }
+extern "C" void h_connected_error() { connected(true, true, QXmppClient::NewStream); }
 
 extern "C" void h_disconnected()
 {
@@ -460,12 +464,15 @@ static void splitJid(const QString &jid, QString &bare, QString &res)
     if (cut < 0) { bare = jid; res = QString(); return; }
     bare = jid.left(cut); res = jid.mid(cut + 1);
 }
+#ifndef PRES_NRES
+#define PRES_NRES 1
+#endif
 extern "C" void h_presence()
 {
     symOwnJid();
     Mgr m; RefRoster ref; RefPresence rp;
     symRoster(m.d, ref);
-    symPresences(m.d, rp, 2);
+    symPresences(m.d, rp, PRES_NRES);
     QXmppPresence p;
     const QString from = vpSymString(FROM_MAX);
     unsigned t = vp_u8(); vp_assume(t <= 7 && t != QXmppPresence::Subscribe);
@@ -485,3 +492,33 @@ extern "C" void h_presence()
     if (relevant && g_nsig == 1) vp_assert(g_sigKind[0] == SigPresenceChanged && g_sigA[0] == bare && g_sigB[0] == res, "C12 presenceChanged names contact and resource");
     checkRoster(m.d, ref);   // presences never touch the contact list
 }
+#ifdef C12_DEBUG
+extern "C" void h_dbg1()
+{
+    internAttrs();
+    QXmppPresence *p = new QXmppPresence();
+    p->setFrom(vpSymString(2));
+    delete p;
+}
+extern "C" void h_dbg2()
+{
+    internAttrs();
+    Mgr m;
+    QString b = vpSymString(2), r = vpSymString(2);
+    QXmppPresence p; p.setFrom(b);
+    m.d->presences[b][r] = p;
+    m.d->presences[b].remove(r);
+}
+static void dbgPresence(int type, int nres)
+{
+    symOwnJid();
+    Mgr m; RefPresence rp;
+    symPresences(m.d, rp, nres);
+    QXmppPresence p;
+    const QString from = vpSymString(FROM_MAX);
+    p.setFrom(from); p.setType(QXmppPresence::Type(type));
+    m->_q_presenceReceived(p);
+}
+extern "C" void h_dbg3() { dbgPresence(QXmppPresence::Unavailable, 1); }
+extern "C" void h_dbg4() { dbgPresence(QXmppPresence::Available, 1); }
+#endif
